@@ -412,12 +412,92 @@ func tsdBlockProperty(t *rapid.T) {
 
 func TestTSDBlock(t *testing.T) { rapid.Check(t, tsdBlockProperty) }
 
+// FuzzTSDBlock is a hand-decoded native fuzz target (rapid.MakeFuzz logs every draw, which makes a
+// block-sized case far too slow for the fuzzer). Input layout:
+//
+//	[0] flags: bit0 emit api, bit1 with time header, bit2 pooled encoder, bits 3..4 extra path
+//	[1..2] start slot (little endian)
+//	then per slot one control byte: bit0 = slot has a value, followed by 8 value bytes; bits 1..7 of
+//	the control byte of an empty slot extend it to a run of empty slots.
 func FuzzTSDBlock(f *testing.F) {
-	// rapid.MakeFuzz consumes 8 input bytes per draw: seeds must be several KiB to describe a block
-	f.Add(pseudoBytes(1, 16384))
-	f.Add(pseudoBytes(7, 32768))
-	f.Add(make([]byte, 16384))
-	f.Fuzz(rapid.MakeFuzz(tsdBlockProperty))
+	f.Add([]byte{0, 0, 0, 1, 1, 2, 3, 4, 5, 6, 7, 8, 0, 1, 0, 0, 0, 0, 0, 0, 0xf0, 0x7f})
+	f.Add([]byte{3, 10, 0, 1, 0, 0, 0, 0, 0, 0, 0xf8, 0x7f, 6, 1, 0, 0, 0, 0, 0, 0, 0xf0, 0xff, 1, 1, 0, 0, 0, 0, 0, 0, 0, 0x80})
+	f.Add(append([]byte{6, 0xff, 0x0d}, pseudoBytes(3, 400)...))
+	f.Fuzz(func(t *testing.T, data []byte) {
+		if len(data) < 4 {
+			return
+		}
+		flags := data[0]
+		api := "append"
+		if flags&1 != 0 {
+			api = "emit"
+		}
+		withTime := flags&2 != 0
+		start := int(data[1]) | int(data[2])<<8
+		var mask []bool
+		var vals []uint64
+		for i := 3; i < len(data) && len(mask) < 700; {
+			ctl := data[i]
+			i++
+			if ctl&1 == 0 {
+				for k := 0; k <= int(ctl>>5); k++ {
+					mask = append(mask, false)
+				}
+				continue
+			}
+			if i+8 > len(data) {
+				break
+			}
+			v := uint64(0)
+			for k := 0; k < 8; k++ {
+				v |= uint64(data[i+k]) << (8 * uint(k))
+			}
+			i += 8
+			if api == "emit" && v == posInfBits {
+				mask = append(mask, false)
+				continue
+			}
+			mask = append(mask, true)
+			vals = append(vals, v)
+		}
+		if len(mask) == 0 {
+			return
+		}
+		if start+len(mask)-1 > 65534 {
+			start = 65534 - (len(mask) - 1)
+		}
+		blk := newBlock(uint16(start), mask, vals)
+		var enc *encoding.TSDEncoder
+		if flags&4 != 0 {
+			enc = encoding.GetTSDEncoder(blk.start)
+		} else {
+			enc = encoding.NewTSDEncoder(blk.start)
+		}
+		enc2 := encodeBlock(t, enc, blk, api, withTime)
+		encoding.ReleaseTSDEncoder(enc)
+		dec := encoding.GetTSDDecoder()
+		defer encoding.ReleaseTSDDecoder(dec)
+		for _, path := range fullPaths {
+			resetDecoder(dec, blk, enc2, withTime, false)
+			execRead(t, dec, blk, readPlan{Path: path, StopAfter: -1, Lo: int(flags >> 6), Hi: int(flags>>5) & 3})
+		}
+		resetDecoder(dec, blk, enc2, withTime, true && withTime)
+		switch (flags >> 3) & 3 {
+		case 0:
+			execRead(t, dec, blk, readPlan{Path: "seek", StopAfter: -1, Target: start + int(data[3])%(len(mask)+2) - 1})
+		case 1:
+			var slots []int
+			for _, b := range data[3:] {
+				slots = append(slots, start+int(b)%(len(mask)+2)-1)
+				if len(slots) > 64 {
+					break
+				}
+			}
+			execRead(t, dec, blk, readPlan{Path: "random", StopAfter: -1, Slots: slots})
+		default:
+			execRead(t, dec, blk, readPlan{Path: "seq", StopAfter: int(data[3]) % (len(mask) + 1)})
+		}
+	})
 }
 
 // TestTSDStream: the multi-field block stream (tsd_stream.go) returns every field id with a
